@@ -118,8 +118,7 @@ func NewGateway(o GatewayOptions) *Gateway {
 // Start starts an HTTP/1.1 listener in front of the handler chain (idempotent).
 func (g *Gateway) Start() *Gateway {
 	g.srvOnce.Do(func() {
-		g.Server = httptest.NewUnstartedServer(g.Handler)
-		g.Server.Config.ErrorLog = nil
+		g.Server = &httptest.Server{Listener: ListenRetry(), Config: &http.Server{Handler: g.Handler}}
 		g.Server.Start()
 		tr := &http.Transport{
 			MaxIdleConnsPerHost: 64,
